@@ -213,15 +213,18 @@ def rules(fx, rep):
     rule_buffers(fx, rep)
     rule_staging(fx, rep)
     bitlin.rule_scalar_mul(fx, rep, GROUPS)
+    bitlin.rule_projective_mul(fx, rep, GROUPS)
+    bitlin.rule_wnaf_table(fx, rep)
+    bitlin.rule_wnaf_exp(fx, rep)
 
 
 def main(tier, t0):
     return common.standard_main(
         PROP, tier, t0, rules, 'other',
-        'Decided: (1) bit-provenance + linear-form abstract interpretation (counted loops with constant bounds) proves that CurveAffine::mul / mul_bits, '
-        'mul_precomp_3 and mul_precomp_256 return sum_n bit_n 2^n P for every 256-bit scalar given the table contract, and that precomp_3 / precomp_256 '
-        'produce exactly those tables; (2) recommended windows always in 2..=22 (all paths enumerated); (3) wnaf_table / wnaf_form empty their buffer first, '
-        'so a reused context equals a fresh one; the staged API threads one window value and the context\'s own buffers; wnaf_form updates the scalar only with '
-        'full-width operations. NOT decided: the wNAF recoding/evaluation arithmetic and projective mul_assign\'s leading-zero skipping (data-dependent loops).',
+        'Decided for ALL 256-bit scalars (bit-provenance + linear-form abstract interpretation, if-conversion on scalar bits, counted loops): CurveAffine::mul / mul_bits, '
+        'projective mul_assign (found_one tracked as an OR of bits), mul_precomp_3, mul_precomp_256 return sum_n 2^n b_n P given the table contracts; precomp_3 / precomp_256 '
+        'establish the contracts from arbitrary buffers. wNAF: wnaf_table = odd multiples for w = 2..8 whatever the buffer held; wnaf_exp = sum_j 2^j n_j P for digit strings of '
+        'length <= 3 with symbolic odd digits; buffers emptied first and refilled on every path; staged API threads one window and its own buffers; wnaf_form updates the scalar '
+        'with full-width operations only; recommended windows in 2..=22 on all paths. NOT decided: wnaf_form recoding arithmetic; wnaf_exp beyond 3 digits (no induction).',
         ['rustc MIR', 'group-operation contracts (C01)', 'BitIterator yields bits most-significant first (ff crate)'],
-        ['table-driven paths decided for all 2^256 scalars; wNAF digit arithmetic not'])
+        ['plain and table-driven paths decided for all 2^256 scalars; wNAF evaluation bounded in digit count; recoding not decided'])
